@@ -405,7 +405,7 @@ pub fn execute(case: &RegCase) -> (RunResult, CaseReport) {
             .nested
             .iter()
             .enumerate()
-            .map(|(i, x)| Nested { thread: x.thread, at: x.at, id: i as u32 })
+            .map(|(i, x)| Nested { thread: x.thread, at: x.at, id: i as u32, on: 0 })
             .collect(),
         weak: case.weak,
         log_ops: true,
